@@ -685,6 +685,8 @@ def check_reuse(case, out):
     out.nontrivial = any(f[0] == 'ok' for f in fresh)
     out.obs = '%s [%s] x %d bindings' % (expr, ver, len(sets))
     if o[0] != 'ok':
+        if o[0] == 'err' and all(f[0] == 'err' and f[1] == o[1] for f in fresh):
+            return
         out.fail('C06/reused-expression/raised', {'expr': expr, 'version': ver, 'got': list(o)})
         return
     for k, (a, b) in enumerate(zip(fresh, o[1])):
